@@ -2,6 +2,8 @@
 which harness suites tie the model to the implementation, which MISMATCH / SPECFAIL tags
 (4th field of the driver's report lines) are attributed to the property."""
 
+import os
+
 TB_COMMON = [
     "Lean 4.33.0 kernel; axioms propext, Classical.choice, Quot.sound only (audited with #print axioms on every property theorem; no sorry/admit/axiom/native_decide/bv_decide, source-scanned)",
     "Mathlib v4.33.0 as a library of kernel-checked lemmas (single modules, proof files only)",
@@ -16,26 +18,39 @@ ASSUME_COMMON = [
 ]
 
 
-def tie(theorems, modules=("Qvnt.Lemmas.GenCore", "Qvnt.Lemmas.GenKOps", "Qvnt.Lemmas.GenKFns", "Qvnt.Lemmas.GenKCtor"), audit=None, sources=".*"):
-    """translation tie: the Rust functions translated by tools/rs2lean.py on every run are proved equal to
-    the hand-written model by the theorems of `modules` whose names match `theorems` (kernel equalities by kind:
-    GenKOps the arithmetic, GenKFns is_valid / acts_on / dgr, GenKCtor Op::new; only the modules that hold a named
-    equality are built, the audit is written on the fly)"""
-    return {"modules": list(modules), "theorems": theorems, "select": True, "sources": sources}
+import glob as _glob
+_LEMMAS = os.path.join(os.path.dirname(os.path.dirname(os.path.abspath(__file__))), "lean", "Qvnt", "Lemmas")
 
 
-GEN2_MODULES = ["Qvnt.Lemmas." + m for m in ("GenQuant", "GenQProb", "GenOps", "GenBits", "GenH", "GenCtors", "GenQft", "GenSample", "GenVirtl",
-                                               "GenExtOp", "GenTwins", "GenMatrix", "GenCreg", "GenMeas", "GenSym", "GenInt")]
+def _chunks(*files):
+    """the per-declaration modules (tools/lean_split.py) of the given lemma files"""
+    out = []
+    for f in files:
+        out += sorted("Qvnt.Lemmas." + f + "." + os.path.basename(p)[:-5] for p in _glob.glob(os.path.join(_LEMMAS, f, "*.lean")))
+    return out
+
+
+GEN1_FILES = ("GenCore", "GenKOps", "GenKFns", "GenKCtor", "GenRegs")
+GEN2_FILES = ("GenPre", "GenQuant", "GenQProb", "GenOps", "GenBits", "GenH", "GenCtors", "GenQft", "GenSample", "GenVirtl", "GenExtOp",
+              "GenCreg", "GenMeas", "GenSym", "GenInt", "GenMatrix")
+GEN2_MODULES = _chunks(*GEN2_FILES) + ["Qvnt.Lemmas.GenTwins"]
+
+
+def tie(theorems, modules=None, audit=None, sources=".*"):
+    """translation tie: the Rust functions translated by tools/rs2lean.py on every run are proved equal to the
+    hand-written model by the theorems whose names match `theorems`. Every equality lives in a module of its own
+    (tools/lean_split.py), importing only what its proof uses; ./check builds the modules that hold a named equality
+    and writes the axiom audit for exactly those on the fly"""
+    return {"modules": _chunks(*GEN1_FILES), "theorems": theorems, "select": True, "sources": sources}
 
 
 def tie2(theorems, sources, creg=False):
-    """second translator (tools/rs2lean2.py -> Generated/Regs.lean); the equalities live in one module per source file /
-    subject (GEN2_MODULES); ./check builds the modules that hold an equality named by `theorems` and audits exactly those"""
-    return {"translator": "rs2lean2", "modules": list(GEN2_MODULES), "theorems": theorems, "select": True, "sources": sources}
+    """second translator (tools/rs2lean2.py -> Generated/Regs.lean): as above, for the modules of GEN2_FILES"""
+    return {"translator": "rs2lean2", "modules": list(GEN2_MODULES) + _chunks("GenRegs"), "theorems": theorems, "select": True, "sources": sources}
 
 
 def tie3(theorems, sources):
-    """interpreter functions of qasm/int/mod.rs (tools/rs2lean2.py), equalities in Lemmas/GenInt.lean"""
+    """interpreter functions of qasm/int/mod.rs (tools/rs2lean2.py), equalities under Lemmas/GenInt/"""
     return tie2(theorems, sources)
 
 
@@ -127,7 +142,7 @@ PROPS = {
     },
     "C11": {
         "modules": ["Qvnt.Props.C11"],
-        "tie": [tie3(r"int_process_(apply_gate|gate|if|node|nodes|node_apply)_eq|int_(ast_changes|add_ast|new)_eq|processNode_disjoint|processApply_macros|foldlM_process|regsOf_eq|argsOf_eq", r"UNSUPPORTED mod\.rs: qasm/int/mod\.rs::(process_(apply_gate|gate|if|node|nodes)|ast_changes|add_ast|new):"), tiec(r"macro_\w+|parse_\w+|sym_\w+"), tie(r"creg_(set|xor|reset|get)_eq|notW_eq", modules=("Qvnt.Lemmas.GenRegs",), sources=r"UNSUPPORTED class\.rs"), tie2(r"creg_get_by_mask_eq|quant_(reset_by_mask|measure_mask|reset)_eq|bitsList_eq|sym_(finish|step|reset|new|get_class|get_probabilities)_eq|store_(set|xor)_eq|finish_as_foldlM|mstep_inv", r"UNSUPPORTED (quant\.rs: register/quant\.rs::(reset_by_mask|measure_mask|reset):|class\.rs|bits_iter\.rs|sym\.rs)", creg=True), tie2(r"extop_(push|append)_eq", r"UNSUPPORTED ext_op\.rs"), tie3(r"int_process_(measure|reset|barrier)_eq|int_branch(_with_id)?_eq|int_xor_eq|int_get_[qc]_idx_eq", r"UNSUPPORTED mod\.rs: qasm/int/mod\.rs::(process_(measure|reset|barrier)|branch|branch_with_id|xor|get_[qc]_idx_with_context|get_idx_by_alias):")],
+        "tie": [tie3(r"int_process_(apply_gate|gate|if|node|nodes|node_apply)_eq|int_(ast_changes|add_ast|new)_eq|processNode_disjoint|processApply_macros|foldlM_process|regsOf_eq|argsOf_eq", r"UNSUPPORTED mod\.rs: qasm/int/mod\.rs::(process_(apply_gate|gate|if|node|nodes)|ast_changes|add_ast|new):"), tiec(r"macro_\w+|parse_\w+|sym_\w+"), tie(r"creg_(set|xor|reset|get)_eq|notW_eq", sources=r"UNSUPPORTED class\.rs"), tie2(r"creg_get_by_mask_eq|quant_(reset_by_mask|measure_mask|reset)_eq|bitsList_eq|sym_(finish|step|reset|new|get_class|get_probabilities)_eq|store_(set|xor)_eq|finish_as_foldlM|mstep_inv", r"UNSUPPORTED (quant\.rs: register/quant\.rs::(reset_by_mask|measure_mask|reset):|class\.rs|bits_iter\.rs|sym\.rs)", creg=True), tie2(r"extop_(push|append)_eq", r"UNSUPPORTED ext_op\.rs"), tie3(r"int_process_(measure|reset|barrier)_eq|int_branch(_with_id)?_eq|int_xor_eq|int_get_[qc]_idx_eq", r"UNSUPPORTED mod\.rs: qasm/int/mod\.rs::(process_(measure|reset|barrier)|branch|branch_with_id|xor|get_[qc]_idx_with_context|get_idx_by_alias):")],
         "suites": [suite("intnu", dict(count=600), dict(count=20000))],
         "mismatch_tags": INT_STRUCT,
         "spec_tags": [r"refsem\.(psi|creg|run)", r"c11\..*", r"iexpect\.accept"],
@@ -249,7 +264,7 @@ PROPS = {
     },
     "C14": {
         "modules": ["Qvnt.Props.C14"],
-        "tie": [tie(r"creg_(tensor_prod|with_state|set_num|mask_of|num)_eq", modules=("Qvnt.Lemmas.GenRegs",), sources=r"UNSUPPORTED class\.rs"), tie2(r"quant_(new|with_state|set_num|reset|tensor_prod|get_probabilities)_eq|creg_(mul|mul_assign|new)_eq", r"UNSUPPORTED (quant\.rs: register/quant\.rs::(new|with_state|set_num|reset|tensor_prod|get_probabilities):|class\.rs)", creg=True)],
+        "tie": [tie(r"creg_(tensor_prod|with_state|set_num|mask_of|num)_eq", sources=r"UNSUPPORTED class\.rs"), tie2(r"quant_(new|with_state|set_num|reset|tensor_prod|get_probabilities)_eq|creg_(mul|mul_assign|new)_eq", r"UNSUPPORTED (quant\.rs: register/quant\.rs::(new|with_state|set_num|reset|tensor_prod|get_probabilities):|class\.rs)", creg=True)],
         "suites": [suite("reg", dict(count=500, max_n=6), dict(count=10000, max_n=9))],
         "mismatch_tags": [r"qobs.*", r"tensor.*", r"setnum.*", r"probs", r"polar", r"qvreg", r"creg", r"ctensor", r"cmulassign", r"qstate", r"q2state", r"q2reg"],
         "spec_tags": [r"c14\..*"],
@@ -275,7 +290,7 @@ PROPS = {
     },
     "C20": {
         "modules": ["Qvnt.Props.C20"],
-        "tie": [tie(r"creg_.*_eq|notW_eq", modules=("Qvnt.Lemmas.GenRegs",), sources=r"UNSUPPORTED class\.rs"), tie2(r"bits_(from|next)_eq|bitsCollect_eq|bitsList_eq|creg_(get_by_mask|mul|mul_assign|new|fmt)_eq|h_(loop|h)_eq|vreg_\w+_eq|quant_get_vreg(_by)?_eq", r"UNSUPPORTED (bits_iter\.rs|class\.rs|h\.rs|virtl\.rs|quant\.rs: register/quant\.rs::get_vreg)", creg=True)],
+        "tie": [tie(r"creg_.*_eq|notW_eq", sources=r"UNSUPPORTED class\.rs"), tie2(r"bits_(from|next)_eq|bitsCollect_eq|bitsList_eq|creg_(get_by_mask|mul|mul_assign|new|fmt)_eq|h_(loop|h)_eq|vreg_\w+_eq|quant_get_vreg(_by)?_eq", r"UNSUPPORTED (bits_iter\.rs|class\.rs|h\.rs|virtl\.rs|quant\.rs: register/quant\.rs::get_vreg)", creg=True)],
         "suites": [
             suite("bits", dict(count=500, timeout=60), dict(count=20000, timeout=600)),
         ],
